@@ -160,8 +160,18 @@ class SymList:
         self.dupfree = dupfree  # bool or z3 Bool
         self.length = length  # SR or None (None: derived from the set when duplicate-free)
 
+    owner = None  # (heap object, field) when this value was read from the heap: in-place mutation is written back
+
     def _contains(self, x):
         return self.s._contains(x)
+
+    def append(self, x):
+        t = z3num(x)
+        self.dupfree = mkbool(z3.And(z3bool(self.dupfree), z3.Not(z3.Select(self.s.arr, t))))
+        self.s = SymSet(z3.Store(self.s.arr, t, z3.BoolVal(True)))
+        self.length = None
+        if self.owner is not None:
+            self.owner[0].write(self.owner[1], self)
 
     def _toset(self):
         return SymSet(self.s.arr)
@@ -293,7 +303,10 @@ class HObj:
             return _arr(st, c, field, part, sort)
 
         if fd.kind == "intlist":
-            return SymList(SymSet(z3.Select(A("set", SetSort), self.id)), mkbool(z3.Select(A("dupfree", B), self.id)), None)
+            r = SymList(SymSet(z3.Select(A("set", SetSort), self.id)), mkbool(z3.Select(A("dupfree", B), self.id)), None)
+            if hp is None:
+                r.owner = (self, field)
+            return r
         if fd.kind == "intset":
             return SymSet(z3.Select(A("set", SetSort), self.id))
         if fd.kind == "bool":
@@ -611,6 +624,7 @@ def _bag_add(self, other):
     return ObjBag(z3.Map(_OR, self.ids, ObjBag.ids_of(other)), self.cls, self.schema, self.clsname)
 
 
+ObjBag._sorted = lambda self, key, reverse: self  # order is not modelled
 ObjBag._at = _bag_at
 ObjBag._getitem = _bag_getitem
 ObjBag.pop = _bag_pop
